@@ -64,6 +64,35 @@ void h_tell_if_real(void) {
     V_COVER("tell-publish-unmatched", vin_has_topic && !vin_has_key); V_COVER("tell-pipe-full", eligible && g_pipe_full && !(vin_oom & 1)); V_COVER("tell-not-eligible-state", vin_state == M_MOD_IDLE);
     V_CANARY();
 }
+/* one send, two eligible recipients, then both are done with it: the payload of an auto-free send is released exactly once, after the
+ * last recipient; a payload sent without the flag is never released by the library.  Also: nobody eligible => released at once. */
+void h_send_two_real(void) {
+    v_inputs_init(); v_base_init();
+    static m_mod_t r1, r2; static int payload_obj;
+    bool autofree = vin_autofree & 1;
+#ifdef V_KF_C02_AUTOFREE_SHARED_PAYLOAD    /* known finding: exclude auto-free sends that do not reach exactly one recipient */
+    V_ASSUME(!(autofree && ((vin_state & 3) != 1)));
+#endif
+    int *payloadp = autofree ? malloc(sizeof(int)) : &payload_obj; V_ASSUME(payloadp != NULL);
+    m_mod_t *sender = m_mem_new(sizeof(m_mod_t), NULL); V_ASSUME(sender != NULL);
+    ps_priv_t callers_msg = { { false, sender, NULL, payloadp }, autofree ? M_PS_AUTOFREE : 0, NULL };
+    /* bit 0 / bit 1 of vin_state: is recipient 1 / 2 eligible (RUNNING) or not (IDLE) */
+    r1.state = (vin_state & 1) ? M_MOD_RUNNING : M_MOD_IDLE; r2.state = (vin_state & 2) ? M_MOD_RUNNING : M_MOD_IDLE; r1.name = r2.name = "r";
+    r1.pubsub_fd[1] = 8; r2.pubsub_fd[1] = 8; g_pipe_full = false; g_pipe_len = 0; g_write_calls = 0;
+    size_t f0 = g_free_calls;
+    void *c1 = NULL, *c2 = NULL;
+    tell_if(&callers_msg, NULL, &r1); if (g_write_calls == 1) c1 = g_pipe_last;
+    size_t w = g_write_calls;
+    tell_if(&callers_msg, NULL, &r2); if (g_write_calls == w + 1) c2 = g_pipe_last;
+    size_t nrecip = (c1 != NULL) + (c2 != NULL);
+    V_CHECK("C02.exactly-the-eligible-recipients", nrecip == (size_t)((vin_state & 1) + ((vin_state >> 1) & 1)));
+    if (c1) m_mem_unref(c1);
+    if (c2) m_mem_unref(c2);
+    size_t payload_frees = g_free_calls - f0 - nrecip;        /* every copy is released once; what remains are payload releases */
+    V_CHECK("C02.autofree-payload-released-exactly-once-after-last-recipient-or-at-once-if-nobody", payload_frees == (autofree ? 1 : 0));
+    V_COVER("two-recipients-autofree", nrecip == 2 && autofree); V_COVER("nobody-eligible-autofree", nrecip == 0 && autofree); V_COVER("one-recipient", nrecip == 1);
+    V_CANARY();
+}
 #ifdef V_NATIVE
-V_NATIVE_MAIN(V_H(h_tell_if_real))
+V_NATIVE_MAIN(V_H(h_tell_if_real), V_H(h_send_two_real))
 #endif
